@@ -75,7 +75,7 @@ func (w c06Writer) done() {
 	w.g.closed[w.id]++
 	w.g.mu.Unlock()
 }
-func (w c06Writer) Close() error { w.done(); return w.BlobWriter.Close() }
+func (w c06Writer) Close() error  { w.done(); return w.BlobWriter.Close() }
 func (w c06Writer) Cancel() error { w.done(); return w.BlobWriter.Cancel() }
 func (w c06Writer) Commit(d ociregistry.Digest) (ociregistry.Descriptor, error) {
 	desc, err := w.BlobWriter.Commit(d)
